@@ -456,6 +456,8 @@ SCOPE_SHAPES = [
     ("gapless_at_type_max", "u8", [253, 254, 255]),
     ("holes_wide_repr", "u64", [0, 1, 2 ** 40]),
     ("holes_9_values_usize", "usize", [0, 1, 2, 3, 4, 5, 6, 7, 9]),
+    ("sparse_bit_flags", "u8", [1, 4, 16, 64]),
+    ("sparse_lattice_signed", "i32", [-2000, -1000, 1000, 4000]),
 ]
 SCOPE_SHAPES_EXTRA = [
     ("holes_18_runs", "i16", [-40, -39] + [3 * i for i in range(17)]),
